@@ -3,6 +3,7 @@ package genlab
 import (
 	"bytes"
 	"context"
+	"fmt"
 	"os"
 	"os/exec"
 	"path/filepath"
@@ -76,10 +77,37 @@ func RunCLI(bin, dir string, args []string, stdin string, timeout time.Duration)
 	cmd.Stdin = strings.NewReader(stdin)
 	var so, se bytes.Buffer
 	cmd.Stdout, cmd.Stderr = &so, &se
-	err := cmd.Run()
+	runaway := false
+	err := cmd.Start()
+	if err == nil {
+		// memory watchdog: a generation that does not terminate allocates several hundred MB per second and the sandbox has no
+		// memory limit - a process above 2 GiB resident is killed and reported like a hang
+		done := make(chan struct{})
+		go func() {
+			t := time.NewTicker(50 * time.Millisecond)
+			defer t.Stop()
+			for {
+				select {
+				case <-done:
+					return
+				case <-t.C:
+					if rssKiB(cmd.Process.Pid) > 2<<20 {
+						runaway = true
+						cmd.Process.Kill()
+						return
+					}
+				}
+			}
+		}()
+		err = cmd.Wait()
+		close(done)
+	}
 	r := CLIResult{Stdout: so.String(), Stderr: se.String()}
-	if ctx.Err() != nil {
+	if ctx.Err() != nil || runaway {
 		r.TimedOut = true
+		if runaway {
+			r.Stderr += "\nRUNAWAY: resident memory above 2 GiB, killed by the harness"
+		}
 	}
 	if err != nil {
 		if ee, ok := err.(*exec.ExitError); ok {
@@ -119,4 +147,20 @@ func TreeNames(t map[string]string) []string {
 	}
 	sort.Strings(n)
 	return n
+}
+
+// rssKiB reads VmRSS of a process (0 if unavailable).
+func rssKiB(pid int) int {
+	b, err := os.ReadFile(fmt.Sprintf("/proc/%d/status", pid))
+	if err != nil {
+		return 0
+	}
+	for _, l := range strings.Split(string(b), "\n") {
+		if strings.HasPrefix(l, "VmRSS:") {
+			var n int
+			fmt.Sscanf(strings.TrimSpace(strings.TrimPrefix(l, "VmRSS:")), "%d", &n)
+			return n
+		}
+	}
+	return 0
 }
